@@ -314,6 +314,14 @@ def codec_duals(ctx: Ctx, rule4: str, rule5: str) -> int:
         for a, b in pairs.items():
             if (a in ws["ops"]) != (b in wd["ops"]):
                 wit.append(f"{a} on write but {'no ' if b not in wd['ops'] else ''}{b} on read" if a in ws["ops"] else f"{b} on read without {a} on write")
+        # keyword arguments of the serialisation call that drop part of the value
+        for n_ in s.own_nodes():
+            if isinstance(n_, ast.Call) and isinstance(n_.func, ast.Attribute) and n_.func.attr in ("to_parquet", "to_csv", "to_pickle", "to_feather", "to_json"):
+                for k_ in n_.keywords:
+                    if k_.arg == "index" and isinstance(k_.value, ast.Constant) and k_.value.value is False:
+                        wit.append(f"{s.loc(n_)}: `{unparse(n_, 60)}` drops the index of the frame: a frame with a named / datetime / filtered index is read back with a fresh RangeIndex")
+                    if k_.arg in ("columns", "usecols", "nrows"):
+                        wit.append(f"{s.loc(n_)}: `{unparse(n_, 60)}` writes a projection of the frame ({k_.arg}=)")
         locs = (s.positional_params()[-1:], d.positional_params()[-1:])
         if not ws["uses_loc"] or not wd["uses_loc"]:
             wit.append("the location parameter is not the file that is opened")
